@@ -124,10 +124,10 @@ TEXTS = {
     },
     "C15": {
         "text": "Lean theorems on the exact cursor model (checked arithmetic): offset_for_token is the true offset, same-offset-in-same-token, "
-                "past-the-end, cursor state never read by format; the known underflow is a decide-checked witness. Input side and end to end (Proofs/CursorProps2): processCursor_in_token (a cursor at offset o of token k is attached to token k at offset o; the boundary case sticks to the previous token: cursor_at_token_start_sticks), cursor_in_unchanged_token(_true) (reported at start'(k)+o, which is the true position of the token's text in the output), the same for multi-line tokens with lines below 2^16 bytes, cursor_in_bounds_partial / cursor_in_bounds_lf (every reported cursor lies within the output, except for an ignored token's blank lines under crlf: counterexample theorem cursor_in_bounds_fails_ignored_crlf = known finding F11, reproduced on the binary), cursor_whitespace_in_gap. Model vs implementation "
+                "past-the-end, cursor state never read by format; the known underflow is a decide-checked witness. Input side and end to end (Proofs/CursorProps2): processCursor_in_token (a cursor at offset o of token k is attached to token k at offset o; the boundary case sticks to the previous token: cursor_at_token_start_sticks), cursor_in_unchanged_token(_true) (reported at start'(k)+o, which is the true position of the token's text in the output), the same for multi-line tokens with lines below 2^16 bytes, cursor_in_bounds_partial / cursor_in_bounds_lf (every reported cursor lies within the output, except for an ignored token's blank lines under crlf: counterexample theorem cursor_in_bounds_fails_ignored_crlf = known finding F11, reproduced on the binary), cursor_whitespace_in_gap. Character boundaries (Proofs/CursorBoundary): output_valid_utf8, cursor_in_gap_on_boundary (non-ignored tokens), cursor_in_token_on_boundary, cursor_on_boundary_unchanged_token (an input cursor on a character boundary inside an unchanged token is reported on a character boundary of the output), with counterexample theorems for changed comments (F16), the safety-net newline (F19) and wide blanks before an ignored token (F37, found on the model and reproduced on the binary). Model vs implementation "
                 "compared on all character boundaries of small inputs and random cursor lists on large ones.",
         "design_ref": "DESIGN.md section 5 (C15)",
-        "note": "Known findings F3, F7, F11, F16. Trusted: Lean kernel, translator, harness, model.",
+        "note": "Known findings F3, F7, F11, F16, F18, F19, F37. Trusted: Lean kernel, translator, harness, model.",
         "technique": "Lean 4 proof over executable model + differential correspondence + direct oracle",
     },
     "C16": {
